@@ -1,6 +1,25 @@
 package main
 
-// One blank import per property package (keep sorted).
+// One blank import per property package.
 import (
+	_ "verifharness/props/c01"
+	_ "verifharness/props/c02"
+	_ "verifharness/props/c03"
+	_ "verifharness/props/c04"
+	_ "verifharness/props/c05"
+	_ "verifharness/props/c06"
+	_ "verifharness/props/c07"
+	_ "verifharness/props/c08"
+	_ "verifharness/props/c09"
+	_ "verifharness/props/c10"
 	_ "verifharness/props/c11"
+	_ "verifharness/props/c12"
+	_ "verifharness/props/c13"
+	_ "verifharness/props/c14"
+	_ "verifharness/props/c15"
+	_ "verifharness/props/c16"
+	_ "verifharness/props/c17"
+	_ "verifharness/props/c18"
+	_ "verifharness/props/c19"
+	_ "verifharness/props/c20"
 )
